@@ -29,9 +29,13 @@ pub struct Node {
     pub kids: [u8; MAXK],
     /// key string ids of a map's members
     pub keys: [u8; MAXK],
+    /// CONCRETE candidate sets (bit j: table entry j is possible) of the member keys and of
+    /// the leaf's string: lets the symbolic executor skip the impossible table entries
+    pub kmask: [u16; MAXK],
+    pub smask: u16,
 }
 
-pub const NODE0: Node = Node { kind: 0, b: false, u: 0, i: 0, f: 0.0, s: 0, len: 0, kids: [0; MAXK], keys: [0; MAXK] };
+pub const NODE0: Node = Node { kind: 0, b: false, u: 0, i: 0, f: 0.0, s: 0, len: 0, kids: [0; MAXK], keys: [0; MAXK], kmask: [0xffff; MAXK], smask: 0xffff };
 
 pub static mut ARENA: [Node; NN] = [NODE0; NN];
 /// number of `into_value` / iterator `next` / `remove` calls so far
@@ -52,28 +56,34 @@ pub fn reset_src() {
     }
 }
 
-/// One concrete branch per candidate (never a symbolic-length copy).  `TABN` is
-/// concrete, so the branches beyond the table are pruned by constant propagation.
-pub fn mkstr(id: u8) -> String {
+/// One concrete branch per candidate (never a symbolic-length copy).  `TABN` and `mask`
+/// are concrete, so the branches of impossible candidates are pruned by constant
+/// propagation; the last possible candidate is the default arm.
+pub fn mkstr_m(id: u8, mask: u16) -> String {
     unsafe {
-        if id == 0 || TABN <= 1 {
-            TAB[0].to_string()
-        } else if id == 1 || TABN <= 2 {
-            TAB[1].to_string()
-        } else if id == 2 || TABN <= 3 {
-            TAB[2].to_string()
-        } else if id == 3 || TABN <= 4 {
-            TAB[3].to_string()
-        } else if id == 4 || TABN <= 5 {
-            TAB[4].to_string()
-        } else if id == 5 || TABN <= 6 {
-            TAB[5].to_string()
-        } else if id == 6 || TABN <= 7 {
-            TAB[6].to_string()
-        } else {
-            TAB[7].to_string()
+        let n = TABN;
+        // index of the last possible candidate
+        let mut last = 0usize;
+        let mut j = 0usize;
+        while j < n {
+            if mask & (1 << j) != 0 {
+                last = j;
+            }
+            j += 1;
         }
+        let mut j = 0usize;
+        while j < n {
+            if mask & (1 << j) != 0 && (j == last || id as usize == j) {
+                return TAB[j].to_string();
+            }
+            j += 1;
+        }
+        TAB[last].to_string()
     }
+}
+
+pub fn mkstr(id: u8) -> String {
+    mkstr_m(id, 0xffff)
 }
 
 /// Identify a string of the table by (length, first byte, last byte).  The tables
@@ -185,7 +195,7 @@ impl IntoValue for SV {
                 K_INT => Value::Integer(n.u),
                 K_NEG => Value::NegativeInteger(n.i),
                 K_FLOAT => Value::Float(n.f),
-                K_STR => Value::String(mkstr(n.s)),
+                K_STR => Value::String(mkstr_m(n.s, n.smask)),
                 K_SEQ => Value::Sequence(SSeq(self.0)),
                 _ => Value::Map(SMap { node: self.0, removed: 0 }),
             }
@@ -250,7 +260,7 @@ impl Map for SMap {
             let id = ident(key);
             let mut i = 0;
             while i < n.len {
-                if self.removed & (1 << i) == 0 && n.keys[i as usize] == id {
+                if self.removed & (1 << i) == 0 && id < 16 && n.kmask[i as usize] & (1 << id) != 0 && n.keys[i as usize] == id {
                     self.removed |= 1 << i;
                     return Some(SV(n.kids[i as usize]));
                 }
@@ -275,7 +285,7 @@ impl Iterator for SMapIter {
                 self.pos += 1;
                 if self.removed & (1 << p) == 0 {
                     EXAMINED += 1;
-                    return Some((mkstr(n.keys[p as usize]), SV(n.kids[p as usize])));
+                    return Some((mkstr_m(n.keys[p as usize], n.kmask[p as usize]), SV(n.kids[p as usize])));
                 }
             }
             None
@@ -298,7 +308,7 @@ pub fn any_leaf_kind() -> u8 {
 pub fn any_leaf(nstr: u8) -> Node {
     let s: u8 = kani::any();
     kani::assume(s < nstr);
-    Node { kind: any_leaf_kind(), b: kani::any(), u: kani::any(), i: kani::any(), f: kani::any(), s, ..NODE0 }
+    Node { kind: any_leaf_kind(), b: kani::any(), u: kani::any(), i: kani::any(), f: kani::any(), s, smask: ((1u32 << nstr) - 1) as u16, ..NODE0 }
 }
 
 #[cfg(kani)]
@@ -324,6 +334,27 @@ pub fn seq_node(kids: &[u8]) -> Node {
         i += 1;
     }
     n
+}
+
+/// like `map_node`, with the concrete candidate set of every key
+pub fn map_node_m(kids: &[u8], keys: &[u8], masks: &[u16]) -> Node {
+    let mut n = map_node(kids, keys);
+    let mut i = 0;
+    while i < kids.len() {
+        n.kmask[i] = masks[i];
+        i += 1;
+    }
+    n
+}
+
+pub fn set_mask(set: &[u8]) -> u16 {
+    let mut m = 0u16;
+    let mut i = 0;
+    while i < set.len() {
+        m |= 1 << set[i];
+        i += 1;
+    }
+    m
 }
 
 pub fn map_node(kids: &[u8], keys: &[u8]) -> Node {
